@@ -143,5 +143,15 @@ CLAIMED['C12'] = {
     'note': 'GEXTest._send_init replaced by the symbolic server model; non-monotone servers outside (property quantifies over monotone policies); randrange/pow stubbed.',
 }
 
+CLAIMED['C19'] = {
+    'engines': 'ZX',
+    'technique': 'symbolic execution of the real probe drivers and of DHEat._dh_rate_test with socket/select/time replaced by symbolic models: the clock is a solver variable (arbitrary non-decreasing instants), every per-connection outcome vector is explored',
+    'text': 'For all outcome vectors within the bounds: host-key phase opens at most one connection per advertised probed type, never two at once, one KEXINIT and one key-exchange '
+            'request per connection; GEX phase <= 9 connections per algorithm, one request each, all closed; audit() runs the rate check exactly when not skipped with limits '
+            '(1.5 s, 38, 3), never the DoS features, and closes every socket; the rate-check loop under a symbolic clock keeps concurrent sockets <= limit, attempts <= max + '
+            'concurrent, closes everything and terminates.',
+    'note': 'Rate loop explored for small parameter values (max 1..2, concurrent 1..2, 0.2 s) and <= 8 select rounds, not for the shipped (38, 3, 1.5 s); select contract: an empty result blocked for the timeout; probe sockets/key-exchange groups are stubs.',
+}
+
 NOT_APPLICABLE = {
 }
